@@ -103,13 +103,14 @@ Definition ym_minus_months_m (y m dm : Z) : res (Z * Z) := dor n <- neg32_m dm; 
 Definition ym_plus_years_m (y m dy : Z) : res (Z * Z) := dor y' <- year_plus_r y dy; Ok (y', m).
 Definition ym_minus_years_m (y m dy : Z) : res (Z * Z) := dor y' <- year_minus_years_m y dy; Ok (y', m).
 
-(** * detail::last_day_of_month, faithful outside 1..12: the table is indexed with
-      static_cast<unsigned>(m) - 1 *)
+(** * detail::last_day_of_month for every stored month value: February of a leap year first,
+      then day{0} for a month outside 1..12 (since 5f4dacf; the table was indexed out of bounds
+      before), then the table *)
 Definition ld_table : list Z := [31; 28; 31; 30; 31; 30; 31; 31; 30; 31; 30; 31].
 Definition last_day_r (y m : Z) : res Z :=
   if (m =? 2) && is_leap_m y then Ok 29
-  else if (1 <=? m) && (m <=? 12) then Ok (nth (Z.to_nat (m - 1)) ld_table 0)
-  else UB OutOfBounds.
+  else if negb (month_ok_m m) then Ok 0
+  else Ok (nth (Z.to_nat (m - 1)) ld_table 0).
 
 (** * year_month_day *)
 (* year_month_day{sys_days} / {local_days}: civil_from_days of the int32 count *)
